@@ -124,9 +124,9 @@ func (c *Classifier) match(in io.Reader) (Results, error) {
 			conf, startOffset, endOffset := c.score(l, id, d, startIndex, endIndex)
 			if conf >= c.threshold && (endIndex-startIndex-startOffset-endOffset) > 0 {
 				candidates = append(candidates, &Match{
-					Name:            LicenseName(l),
-					Variant:         variantName(l),
-					MatchType:       detectionType(l),
+					Name:            d.name,
+					Variant:         d.variant,
+					MatchType:       d.category,
 					Confidence:      conf,
 					StartLine:       id.Tokens[startIndex+startOffset].Line,
 					EndLine:         id.Tokens[endIndex-endOffset-1].Line,
